@@ -365,7 +365,10 @@ package inputrc
 //@   props C19 C01
 //@   terminates
 //@   pure
+// escm names the result of EscapeMacro (a pure function of its argument)
+//@ spec escm(s string) string
 //@ func EscapeMacro
-//@   props C19 C01
+//@   props C19 C18 C01
 //@   terminates
 //@   pure
+//@   defines escm
